@@ -5,6 +5,7 @@ import (
 	"errors"
 	"fmt"
 	"strings"
+	"syscall"
 	"time"
 
 	"github.com/yandex/pandora/core"
@@ -239,14 +240,25 @@ func runC08(r *R) {
 	// then delivers fewer items than its bounds say must report the failure: a short delivery that ends as a clean
 	// end of ammo is not "exactly min(limit, passes x entries) items"
 	faultAt := int64(-1)
+	faultKind := ""
 	if mf := c08MainFile(files); mf != "" && bound >= 0 && len(files[mf]) > 0 && r.F.Draw(5) == 0 {
 		p, ok := plans[mf]
 		if !ok {
 			p = simfs.NoPlan()
 		}
 		faultAt = faultOffset(r.F, files[mf])
-		p.ReadErrAt = faultAt
-		p.ReadErrOnce = r.F.Draw(3) == 0
+		switch r.F.Draw(6) {
+		case 0:
+			// the file cannot be opened at all (EACCES)
+			p.OpenErr, faultKind = syscall.EACCES, "open-error"
+		case 1:
+			// reading works, going back to the start for the next pass does not
+			p.SeekErr, faultKind = true, "seek-error"
+		default:
+			p.ReadErrAt = faultAt
+			p.ReadErrOnce = r.F.Draw(3) == 0
+			faultKind = "read-error"
+		}
 		plans[mf] = p
 	}
 	out := runProvider(r, provRun{Conf: conf, Files: files, Plans: plans, Consumers: sp.Cons, CancelAfter: sp.CancelAt, Stalls: sp.Stalls}, false)
@@ -279,16 +291,16 @@ func runC08(r *R) {
 		}
 		return
 	}
-	if faultAt >= 0 && out.DiskFired["read-eio"]+out.DiskFired["read-eio-transient"] > 0 {
-		r.Note("fault-cell/" + kindSig)
+	if faultAt >= 0 && out.DiskFired["read-eio"]+out.DiskFired["read-eio-transient"]+out.DiskFired["open-error"]+out.DiskFired["seek-error"] > 0 {
+		r.Note("fault-cell/" + faultKind + "/" + kindSig)
 		r.NonTrivial()
 		got := len(out.All)
 		switch {
 		case got > bound:
 			r.Fail("fault/too-many/"+ctxSig, "%d items delivered with a read error at byte %d, the bound is %d", got, faultAt, bound)
 		case out.NewErr == nil && out.RunErr == nil && got < bound:
-			r.Fail("read-error-swallowed/"+ctxSig, "a read of the ammo file failed at byte %d (transient=%v); the provider was built and Run returned nil, yet only %d of min(limit %d, passes %d x %d entries) = %d items were delivered: the run ends as a clean end of ammo",
-				faultAt, plans[c08MainFile(files)].ReadErrOnce, got, sp.Limit, sp.Passes, entries, bound)
+			r.Fail(faultKind+"-swallowed/"+ctxSig, "the ammo file failed (%s) at byte %d (transient=%v); the provider was built and Run returned nil, yet only %d of min(limit %d, passes %d x %d entries) = %d items were delivered: the run ends as a clean end of ammo",
+				faultKind, faultAt, plans[c08MainFile(files)].ReadErrOnce, got, sp.Limit, sp.Passes, entries, bound)
 		}
 		return
 	}
